@@ -1677,7 +1677,22 @@ func (v VendorNamespace) decodeVendorNamespace(data []byte, offset uint16, prese
 }
 
 func (m RadioTap) SerializeTo(b gopacket.SerializeBuffer, opts gopacket.SerializeOptions) error {
-	buf := make([]byte, 1024)
+	// upper bound of the header size: version, pad and length, then per present word the word itself and
+	// at most 128 octets of radiotap fields (alignment included) or one vendor namespace
+	size := 4 + len(m.Present)*(4+128)
+	for _, v := range m.VendorValues {
+		if len(v.OUI) < 3 {
+			return errors.New("RadioTap vendor namespace OUI is shorter than 3 octets")
+		}
+		size += 12 + len(v.Contents) + int(v.SkipLength)
+	}
+	if size > 0xffff {
+		return fmt.Errorf("RadioTap header of up to %d octets exceeds the 16 bit length field", size)
+	}
+	if size < 1024 {
+		size = 1024
+	}
+	buf := make([]byte, size)
 
 	buf[0] = m.Version
 	buf[1] = 0
